@@ -89,9 +89,11 @@ def Leaf.WT (cj : K → K) (I : K) : Leaf K → Prop
   | .flattenInv R S => S.m = 1 ∧ R.m = 1 ∧ R.n 0 = S.n 0 ∧ (∀ i, S.W 0 i ≠ 0) ∧ realW cj S ∧
       (∀ k, R.W 0 k = 1) ∧ R.real = S.real
   | .proj P Q idx => Q.real = P.real ∧ (∀ k, k < Q.m → idx k < P.m ∧ Q.n k = P.n (idx k) ∧
-      ∀ i, Q.W k i = P.W (idx k) i) ∧ (∀ k l, k < Q.m → l < Q.m → idx k = idx l → k = l)
+      ∀ i, P.W (idx k) i ≠ 0 ∧ Q.W k i ≠ 0) ∧ realW cj P ∧ realW cj Q ∧
+      (∀ k l, k < Q.m → l < Q.m → idx k = idx l → k = l)
   | .projAdj Q P idx => Q.real = P.real ∧ (∀ k, k < Q.m → idx k < P.m ∧ Q.n k = P.n (idx k) ∧
-      ∀ i, Q.W k i = P.W (idx k) i) ∧ (∀ k l, k < Q.m → l < Q.m → idx k = idx l → k = l)
+      ∀ i, P.W (idx k) i ≠ 0 ∧ Q.W k i ≠ 0) ∧ realW cj P ∧ realW cj Q ∧
+      (∀ k l, k < Q.m → l < Q.m → idx k = idx l → k = l)
 
 def Impl.needRe : Impl K → Prop
   | .leaf l => l.needRe
